@@ -154,6 +154,7 @@ class GenResult:
     raised: object = None          # class value / text of an interpreted ``raise``
     raised_where: str = ''
     children: list = field(default_factory=list)   # (pith_expr, child hint) in enqueue order
+    children_sane: list = field(default_factory=list)   # the sanified-hint objects enqueued, same order
     is_random_needed: bool | None = None
     trace: list = field(default_factory=list)
 
@@ -297,6 +298,12 @@ class Generator:
                 raise _Abort(f'sanify_hint_child on non-abstract hint {h!r}')
             if h.ignorable:
                 return G.IGNORABLE
+            red = h.extra.get('reduces_to')
+            if red is not None:
+                # a member that sanifies to another hint plus a type-variable table (a parametrised user generic)
+                s_ = ASane(red[0])
+                s_.typearg_to_hint = dict(red[1])
+                return s_
             return ASane(h)
 
         def acquire(env, args, kwargs):
@@ -397,6 +404,7 @@ class Generator:
             hs = kwargs.get('hint_sane', args[1] if len(args) > 1 else None)
             pe = kwargs.get('pith_expr', args[2] if len(args) > 2 else None)
             res.children.append((pe, getattr(hs, 'hint', hs)))
+            res.children_sane.append(hs)
             return _call_function(self.f, enq, args, kwargs, env.depth + 1)
         self.f.stubs[enq_q] = enq_stub
         type_q = None
@@ -429,6 +437,7 @@ class Generator:
         c = self._builtin_cls.get(name)
         if c is None:
             c = self._builtin_cls[name] = AHint(name, None, (), is_pep=False, is_type=True, origin=name)
+            c._denotes = Sym('builtin', name)
         return c
 
     # -- abstract hint constructors ------------------------------------
